@@ -60,3 +60,7 @@ macro_rules! beyond_harness {
 beyond_harness!(kb1_fast_back_beyond_window_w100, 100);
 beyond_harness!(kb1_fast_back_beyond_window_w88, 88);
 beyond_harness!(kb1_fast_back_beyond_window_w87, 87);
+
+// (A harness for a self-overlapping match that starts in the previous pass of the window and runs into the current one —
+// length 40 at distance 2 with one byte written, both real copy primitives — did not finish in 1800 s and is not kept;
+// the seeded change C19e lives there and is not detected.)
